@@ -35,6 +35,7 @@ extern void COTmrUnlock(void);
 static void         COTmrReset  (CO_TMR *tmr);
 static CO_TMR_TIME *COTmrInsert (CO_TMR *tmr, uint32_t dTnew, CO_TMR_ACTION *action);
 static void         COTmrRemove (CO_TMR *tmr, CO_TMR_TIME *tx);
+static void         COTmrRemoveElapsed(CO_TMR *tmr, CO_TMR_TIME *tx);
 
 /******************************************************************************
 * PROTECTED FUNCTIONS
@@ -188,6 +189,7 @@ int16_t COTmrDelete(CO_TMR *tmr, int16_t actId)
     CO_TMR_ACTION *prev;
     CO_TMR_ACTION *del    = 0;
     int16_t        result = -1;
+    uint8_t        elapsed = 0;
 
     if ( (actId < 0) ||
          (actId >= (int16_t)(tmr->Max)) ) {
@@ -226,6 +228,7 @@ int16_t COTmrDelete(CO_TMR *tmr, int16_t actId)
     /* not found: search in elapsed timer list */
     if (del == 0) {
         tx = tmr->Elapsed;
+        elapsed = 1;
         while ((tx != 0) && (del == 0)) {
             act = tx->Action;
             if (act->Id == (uint16_t)actId) {
@@ -263,7 +266,11 @@ int16_t COTmrDelete(CO_TMR *tmr, int16_t actId)
         if (tx != 0) {
             if (tx->Action == (CO_TMR_ACTION*)0) {
                 tx->ActionEnd = 0;
-                COTmrRemove(tmr, tx);
+                if (elapsed == 0) {
+                    COTmrRemove(tmr, tx);
+                } else {
+                    COTmrRemoveElapsed(tmr, tx);
+                }
             }
             result = 0;
         }
@@ -553,4 +560,27 @@ static void COTmrRemove(CO_TMR *tmr, CO_TMR_TIME *tx)
             } while((tn != 0) && (tx != 0));
         }
     }
+}
+
+static void COTmrRemoveElapsed(CO_TMR *tmr, CO_TMR_TIME *tx)
+{
+    CO_TMR_TIME *tn;
+
+    /* unlink timer from elapsed list */
+    if (tmr->Elapsed == tx) {
+        tmr->Elapsed = tx->Next;
+    } else {
+        tn = tmr->Elapsed;
+        while ((tn != 0) && (tn->Next != tx)) {
+            tn = tn->Next;
+        }
+        if (tn == 0) {
+            return;
+        }
+        tn->Next = tx->Next;
+    }
+    /* put timer in free list */
+    tx->Delta = 0;
+    tx->Next  = tmr->Free;
+    tmr->Free = tx;
 }
